@@ -17,7 +17,9 @@
 (*   ty    "S" string, "I" int64, "L" []string, "T" time.Time              *)
 (*   val   a token: "z" the zero value, "k" the record key, "v<i>" the     *)
 (*         non-zero value given to field i (different for every field, so  *)
-(*         a value that leaks from one field into another is visible)      *)
+(*         a value that leaks from one field into another is visible); the *)
+(*         driver concretises "v<i>" with several representatives of the   *)
+(*         type (ordinary and boundary values)                             *)
 (* Catalog models: field 1 is the key field.  Reserved heads (exact):      *)
 (* key, value, expireAt, createdAt, createdBy, updatedAt, updatedBy; every *)
 (* other head names a field of the msgpack map body.                       *)
@@ -136,7 +138,8 @@ DecField(dev, tr, f) ==
   IN CASE NilBody(dev) /\ IsBodyField(f) /\ tr.kind = "body" /\ f.head \in DOMAIN tr.body /\ f.ty = "L" /\ Zero(tr.body[f.head])
                       -> "BODYERR"                                                \* msgpack nil: "decode map-body field: EOF"
        [] r = "key"   -> IF f.ty = "S" THEN tr.key ELSE "PANIC"                  \* reflect SetString on a non-string
-       [] r = "value" -> CASE tr.kind = "typed" -> IF tr.typed[1] = f.ty THEN tr.typed[2] ELSE base
+       [] r = "value" -> CASE tr.kind = "typed" -> IF tr.typed[1] = f.ty \/ (tr.typed[1] = "I" /\ f.ty = "T")   \* unix seconds -> time
+                                                     THEN tr.typed[2] ELSE base
                            [] tr.kind = "one"   -> IF f.ty = "L" THEN tr.one ELSE base
                            [] tr.kind = "body"  -> IF f.ty = "L" THEN "ERR" ELSE base   \* a map is not a slice
                            [] OTHER             -> base
@@ -186,7 +189,7 @@ AcceptedCatalog(m) ==
   /\ \A i \in DOMAIN m :
         /\ m[i].head \in TimeSlots => m[i].ty = "T"
         /\ m[i].head \in BySlots => m[i].ty = "S"
-        /\ m[i].head = "value" => m[i].ty \in {"S", "I", "L"}
+        /\ m[i].head = "value" => m[i].ty \in {"S", "I", "L", "T"}
   /\ ~("value" \in Heads(m) /\ \E i \in DOMAIN m : IsBodyField(m[i]))       \* shapes are exclusive
 
 -----------------------------------------------------------------------------
